@@ -119,12 +119,21 @@ def row_major(comps, shape):
     return acc
 
 
-def body(ctx, conv, shape, variant, kind, part, data_first=False):
+def body(ctx, conv, shape, variant, kind, part, data_first=False, via=None):
     builders.DATA_FIRST = data_first
     try:
         ds, convention, expected = make_dataset(conv, shape, variant)
     finally:
         builders.DATA_FIRST = False
+    if via is not None:
+        # the convention object after a trip through pickle / copy (a bound dataset sent to a worker): it still
+        # describes the grid it was built for
+        import copy
+        import pickle
+        if via == 'used-pickle':
+            convention.grid_size, convention.grid_shape
+        convention = {'pickle': lambda c: pickle.loads(pickle.dumps(c)), 'used-pickle': lambda c: pickle.loads(pickle.dumps(c)),
+                      'copy': copy.copy, 'deepcopy': copy.deepcopy}[via](convention)
     kind_obj = next(k for k in convention.grid_kinds if k.value == kind)
     eshape = expected[kind]
     size = int(numpy.prod(eshape))
@@ -182,6 +191,11 @@ def body(ctx, conv, shape, variant, kind, part, data_first=False):
     if part == 'ravel':
         comps = tuple(ctx.int(f'c{d}') for d in range(len(eshape)))
         idx = native(conv, kind_obj, comps)
+        if conv == 'shoc_standard':
+            # the grid kind's call helper is the documented way to write these indexes: kind(j, i) == (kind, j, i)
+            helped = kind_obj(*comps)
+            ctx.check(isinstance(helped, tuple) and len(helped) == 3 and helped[0] == kind_obj
+                      and And(same(helped[1], comps[0]), same(helped[2], comps[1])), 'kind(j, i) is the native index (kind, j, i)')
         try:
             r = convention.ravel_index(idx)
         except Exception as e:
@@ -232,6 +246,14 @@ def cases(tier):
                 name = name.replace(' ', '')
                 yield Case(name, body, dict(conv=conv, shape=shp, variant=variant, kind=kind, part=part),
                            patches=_patches, max_paths=500)
+    for conv, shp, variant, kinds in [('cf1d', (2, 3), 'explicit', ['face']), ('cf1d', (3, 2), 'explicit-topology', ['face']),
+                                      ('cf2d', (2, 3), 'lonT', ['face']), ('shoc_standard', (2, 3), 'named', ['face', 'left']),
+                                      ('ugrid', 'tqp', 'edgeimplied', ['face', 'edge'])]:
+        for kind in kinds:
+            for via in ('pickle', 'used-pickle', 'copy', 'deepcopy'):
+                for part in ('meta', 'wind', 'ravel'):
+                    yield Case(f'{conv}:{shp}:{variant}:{kind}:{part}:after-{via}'.replace(' ', ''), body,
+                               dict(conv=conv, shape=shp, variant=variant, kind=kind, part=part, via=via), patches=_patches, max_paths=500)
     # a data variable stored (x, y) listed before the geometry variables: the dataset's own dimension order is x, y
     for conv, variant in (('cf1d', 'yx'), ('cf2d', 'plainvars'), ('shoc_simple', '-')):
         for shp in ((2, 3), (3, 1)) if tier == 'quick' else ((2, 3), (3, 1), (1, 4), (4, 5)):
